@@ -349,6 +349,7 @@ R4_RULES = [
     ('R4-stake-waiters-zip', r'(?P<a>\b\w+)\s*\.\s*into_iter\(\)\s*\.\s*zip\(\s*(?P<b>\w+)\s*\.\s*into_iter\(\)\s*\)\s*\.\s*map\(\s*\|\(name, handler\)\|\s*\{\s*let stake = self\.committee\.stake\(&name\);\s*Self::waiter\(handler, stake\)\s*\}\s*\)\s*\.\s*collect\(\)', r'vx_stake_waiters(\g<a>, \g<b>, &self.committee)', None),
     ('R4-stake-waiters-pairs', r'(?P<a>\b\w+)\s*\.\s*into_iter\(\)\s*\.\s*map\(\s*\|\(name, handler\)\|\s*\{\s*let stake = self\.committee\.stake\(&name\);\s*Self::waiter\(handler, stake\)\s*\}\s*\)\s*\.\s*collect\(\)', r'vx_stake_waiters_pairs(\g<a>, &self.committee)', None),
     ('R4-notify-reads', r'(?P<e>\b\w+)\s*\.\s*iter_mut\(\)\s*\.\s*map\(\s*\|\(x, y\)\|\s*y\.notify_read\(x\.to_vec\(\)\)\s*\)\s*\.\s*collect\(\)', r'vx_notify_reads(&mut \g<e>)', None),
+    ('R4-dissemination', r'pending\s*\.\s*push\s*\(\s*async\s+move\s*\{.*?\}\s*\)\s*;(?=\s*pending_counter)', r'pending.push(vx_dissemination_future(wait_for_quorum));', 'dotall'),
     ('R4-retain-ge', r'\.\s*retain\s*\(\s*\|\s*k\s*,\s*_\s*\|\s*k\s*>=\s*(?P<r>\w+)\s*\)', r'.vx_retain_keys_ge(\g<r>)', None),
     ('R4-get-map-or-else-stake', r'(?P<e>%s)\s*\.\s*get\s*\(\s*(?P<k>\w+)\s*\)\s*\.\s*map_or_else\s*\(\s*\|\s*\|\s*0\s*,\s*\|\s*x\s*\|\s*x\s*\.\s*stake\s*\)' % _E,
      r'(match \g<e>.get(\g<k>) { None => 0, Some(x) => x.stake })', None),
@@ -476,7 +477,12 @@ class FnEmitter:
                     and toks[i - 2].text == 'tokio':
                 o = i + 2
                 c = match_close(toks, o)
-                arms = self.parse_select(o, c)
+                try:
+                    arms = self.parse_select(o, c)
+                except GenError as e_:
+                    # left as is: either another rule replaces the enclosing statement, or Verus rejects the macro (=> quarantine)
+                    self.fire('R2-skipped', str(e_))
+                    continue
                 start = toks[i - 2].start
                 end = toks[c].end
 
@@ -709,7 +715,7 @@ class FnEmitter:
         # --- R4 idioms (regex on the original text, located as edits)
         text = src[body_src_a:body_src_b]
         for (rule, pat, repl, kind_) in R4_RULES:
-            for m in re.finditer(pat, text):
+            for m in re.finditer(pat, text, re.S if kind_ == 'dotall' else 0):
                 a0 = body_src_a + m.start()
                 b0 = body_src_a + m.end()
                 if kind_ == 'range':
